@@ -152,7 +152,11 @@ def scan(source: str, callback: callable):
                 # (`::selection {`) could be consumed by condition above
                 state.start = scanner.start
 
-            if scanner.eat(Chars.LeftRound):
+            if scanner.pos != scanner.start:
+                # Colon of known selector context (`(min-width: 10px)`, `::before`)
+                # is consumed already: next character may start a comment
+                pass
+            elif scanner.eat(Chars.LeftRound):
                 state.expression += 1
             elif scanner.eat(Chars.RightRound):
                 state.expression -= 1
